@@ -3,6 +3,9 @@
 
   unparse     every module re-emitted by ast.unparse (formatting, parentheses, quotes, comments all change)
   rename      every function-local variable that is not a parameter gets a `_r` suffix (alpha-renaming)
+  flipif      every two-armed `if c: A else: B` becomes `if not c: B else: A`
+  flipcmp     every `a < b` becomes `b > a` (and <=, >, >= likewise)
+  hoistret    every `return <call or arithmetic>` becomes `_ret = ...; return _ret`
 """
 import ast, os, shutil, subprocess, sys, tempfile, builtins
 HERE = os.path.dirname(os.path.abspath(__file__))
@@ -46,16 +49,64 @@ class Renamer(ast.NodeTransformer):
         return node
 
 
+class FlipIf(ast.NodeTransformer):
+    """`if c: A else: B` -> `if not c: B else: A` (two-armed ifs that are not elif chains)"""
+    def visit_If(self, node):
+        self.generic_visit(node)
+        if node.orelse and not (len(node.orelse) == 1 and isinstance(node.orelse[0], ast.If)) and not isinstance(node.test, ast.UnaryOp):
+            return ast.If(test=ast.UnaryOp(op=ast.Not(), operand=node.test), body=node.orelse, orelse=node.body)
+        return node
+
+
+class FlipCompare(ast.NodeTransformer):
+    """a < b -> b > a, a <= b -> b >= a (single comparisons)"""
+    MAP = {ast.Lt: ast.Gt, ast.Gt: ast.Lt, ast.LtE: ast.GtE, ast.GtE: ast.LtE}
+
+    def visit_Compare(self, node):
+        self.generic_visit(node)
+        if len(node.ops) == 1 and type(node.ops[0]) in self.MAP:
+            return ast.Compare(left=node.comparators[0], ops=[self.MAP[type(node.ops[0])]()], comparators=[node.left])
+        return node
+
+
+class HoistReturn(ast.NodeTransformer):
+    """`return f(..)` -> `_ret = f(..); return _ret`"""
+    def visit_FunctionDef(self, node):
+        self.generic_visit(node)
+        node.body = self._block(node.body)
+        return node
+
+    def _block(self, stmts):
+        out = []
+        for s in stmts:
+            for fld in ("body", "orelse", "finalbody"):
+                b = getattr(s, fld, None)
+                if isinstance(b, list) and b and isinstance(b[0], ast.stmt):
+                    setattr(s, fld, self._block(b))
+            if isinstance(s, ast.Return) and isinstance(s.value, (ast.Call, ast.BinOp)):
+                out.append(ast.Assign(targets=[ast.Name(id="_ret", ctx=ast.Store())], value=s.value))
+                out.append(ast.Return(value=ast.Name(id="_ret", ctx=ast.Load())))
+            else:
+                out.append(s)
+        return out
+
+
 def transform(kind, src):
     tree = ast.parse(src)
     if kind == "rename":
         tree = Renamer().visit(tree)
-        ast.fix_missing_locations(tree)
+    elif kind == "flipif":
+        tree = FlipIf().visit(tree)
+    elif kind == "flipcmp":
+        tree = FlipCompare().visit(tree)
+    elif kind == "hoistret":
+        tree = HoistReturn().visit(tree)
+    ast.fix_missing_locations(tree)
     return ast.unparse(tree) + "\n"
 
 
 def main():
-    kinds = [a for a in sys.argv[1:] if not a.startswith("--")] or ["unparse", "rename"]
+    kinds = [a for a in sys.argv[1:] if not a.startswith("--")] or ["unparse", "rename", "flipif", "flipcmp", "hoistret"]
     bad = 0
     for kind in kinds:
         tmp = tempfile.mkdtemp(prefix="sigverif-benign-")
